@@ -399,7 +399,7 @@ fn main() {
             }
         }
     }
-    let nr = if san { ctx.budget(2, 8) } else { ctx.budget(60, 1500) };
+    let nr = if san { ctx.budget(2, 8) } else { ctx.budget(300, 6000) };
     for _ in 0..nr {
         if let Some(mut rng) = ctx.random_case() {
             let len = rng.range_usize(0, if san { 10 } else { 64 });
